@@ -115,4 +115,37 @@ theorem memoRun_perClass {α : Type} (parent : Nat → Option Nat) (fuel : Nat) 
         · subst e; simp at hx; exact hx.symm
         · simp [e] at hx; exact h x v hx)]
 
+/-! ### default factories and instances -/
+
+/-- a new instance gets the identities `next, next+1, …`, each holding its factory's product; older objects are untouched -/
+theorem newInst_spec (h : Heap) (facs : List (List Val)) :
+    (newInst h facs).1 = List.range' h.next facs.length ∧
+    (newInst h facs).2.next = h.next + facs.length ∧
+    (∀ k (hk : k < facs.length), (newInst h facs).2.cell (h.next + k) = some facs[k]) ∧
+    (∀ i, i < h.next → (newInst h facs).2.cell i = h.cell i) := by
+  induction facs generalizing h with
+  | nil => simp [newInst]
+  | cons c cs ih =>
+    obtain ⟨i1, i2, i3, i4⟩ := ih (h.alloc c).2
+    have hn : (h.alloc c).2.next = h.next + 1 := rfl
+    simp only [newInst, List.length_cons]
+    refine ⟨?_, ?_, ?_, ?_⟩
+    · rw [i1, hn]; simp [Heap.alloc, List.range'_succ]
+    · rw [i2, hn]; omega
+    · intro k hk
+      cases k with
+      | zero =>
+        have := i4 h.next (by rw [hn]; omega)
+        simp only [Nat.add_zero, List.getElem_cons_zero]
+        rw [this]; simp [Heap.alloc]
+      | succ j =>
+        have := i3 j (by simpa using hk)
+        rw [hn] at this
+        simp only [List.getElem_cons_succ]
+        rw [← this]; congr 1; omega
+    · intro i hi
+      rw [i4 i (by rw [hn]; omega)]
+      have : i ≠ h.next := by omega
+      simp [Heap.alloc, this]
+
 end PwVerif.DcMro
